@@ -243,7 +243,16 @@ enum St {
     Dead,
 }
 
-const STEP_TIMEOUT: Duration = Duration::from_secs(10);
+/// A thread that does not reach its next interleaving point (or return) within this time is hung.  Generous,
+/// because the machine may be heavily loaded; shortened after the first hang so a hanging mutant stays cheap.
+static HANGS: AtomicUsize = AtomicUsize::new(0);
+fn step_timeout() -> Duration {
+    if HANGS.load(Ordering::SeqCst) == 0 {
+        Duration::from_secs(45)
+    } else {
+        Duration::from_secs(3)
+    }
+}
 
 fn run_conc(case: &Value) -> Value {
     let n = case["cfg"]["n"].as_u64().unwrap() as usize;
@@ -270,7 +279,8 @@ fn run_conc(case: &Value) -> Value {
 
     // wait until thread t is parked at its next access or has returned
     let wait = |t: usize, st: &mut Vec<St>, hang: &mut Option<String>, panic_msg: &mut Option<String>| -> Value {
-        match rep_rx.recv_timeout(STEP_TIMEOUT) {
+        let patience = step_timeout();
+        match rep_rx.recv_timeout(patience) {
             Ok((id, rep)) => {
                 assert_eq!(id, t, "harness: report from a thread that was not running");
                 match rep {
@@ -291,7 +301,8 @@ fn run_conc(case: &Value) -> Value {
             }
             Err(RecvTimeoutError::Timeout) | Err(RecvTimeoutError::Disconnected) => {
                 st[t] = St::Dead;
-                *hang = Some(format!("thread {} made no progress for {:?} between two interleaving points", t, STEP_TIMEOUT));
+                HANGS.fetch_add(1, Ordering::SeqCst);
+                *hang = Some(format!("thread {} made no progress for {:?} between two interleaving points", t, patience));
                 json!({"at": "hang"})
             }
         }
@@ -433,16 +444,19 @@ fn jitter(rng: &mut Rng) {
 
 /// One free-running execution: n voter threads doing `ops` random vote / rescind calls each and then
 /// dropping their voter, one receiver thread polling like an executor (initially, whenever woken, and
-/// now and then spuriously).  Since every voter is dropped in the end the receiver must complete; if its
-/// waker does not fire within `patience` after it was told "pending" that is a lost wake-up ("timeout").
+/// now and then spuriously).  Since every voter is dropped in the end the receiver must complete.  The
+/// lost wake-up verdict does not depend on timing: the receiver gives up ("timeout" event, which P refuses)
+/// only when it was told "pending", every voter thread has returned from its drop, and its waker still has
+/// not fired - then nobody is left who could fire it.  `patience` only bounds a voter that never returns.
 fn stress_run(n: usize, ops: usize, seed: u64, patience: Duration) -> Value {
     let log = Log::new();
     let (voters, mut rx) = make(n);
     let (wc, waker) = log_waker(&log);
     let barrier = Arc::new(Gate::new(n + 1));
+    let finished = Arc::new(AtomicUsize::new(0));
     let mut handles = Vec::new();
     for (t, v) in voters.into_iter().enumerate() {
-        let (log, barrier) = (log.clone(), barrier.clone());
+        let (log, barrier, finished) = (log.clone(), barrier.clone(), finished.clone());
         let mut rng = Rng(seed.wrapping_mul(31).wrapping_add(t as u64 * 7919 + 1) | 1);
         handles.push(thread::spawn(move || {
             let mut slot = v;
@@ -454,6 +468,7 @@ fn stress_run(n: usize, ops: usize, seed: u64, patience: Duration) -> Value {
             }
             jitter(&mut rng);
             voter_op(&log, t, &mut slot, "drop");
+            finished.fetch_add(1, Ordering::SeqCst);
             take_buf()
         }));
     }
@@ -477,7 +492,8 @@ fn stress_run(n: usize, ops: usize, seed: u64, patience: Duration) -> Value {
                 if spurious && start.elapsed() > Duration::from_micros(20) {
                     break;
                 }
-                if start.elapsed() > patience {
+                let all_gone = finished.load(Ordering::SeqCst) == n;
+                if (all_gone && wc.count.load(Ordering::SeqCst) == w0) || start.elapsed() > patience {
                     lost = true;
                     break;
                 }
@@ -502,7 +518,7 @@ fn stress(args: &[String]) {
     let seed: u64 = args.first().and_then(|s| s.parse().ok()).unwrap_or(1);
     let runs: usize = args.get(1).and_then(|s| s.parse().ok()).unwrap_or(100);
     let ops: usize = args.get(2).and_then(|s| s.parse().ok()).unwrap_or(6);
-    let patience = Duration::from_millis(args.get(3).and_then(|s| s.parse().ok()).unwrap_or(3000));
+    let patience = Duration::from_millis(args.get(3).and_then(|s| s.parse().ok()).unwrap_or(60000));
     let stdout = std::io::stdout();
     let mut out = std::io::BufWriter::new(stdout.lock());
     use std::io::Write;
